@@ -267,8 +267,8 @@ def run(ctx):
     known = {k["id"]: k for k in vlib.load_known_findings("C19")}
     rng = random.Random(ctx.seed + 19)
     want_n = 160 if ctx.tier == "quick" else 900
-    prof_clean = gendev.Profile(enum_same_name=True)
-    prof_dirty = gendev.Profile(wo_fields=True, neg_stride=True, block_refs=True, enum_same_name=True)
+    prof_clean = gendev.Profile(enum_same_name=True, enum_reuse=True)
+    prof_dirty = gendev.Profile(wo_fields=True, neg_stride=True, block_refs=True, enum_same_name=True, enum_reuse=True)
     cases, defs = [], {}
     i = 0
     while len(cases) < want_n * 3 and i < want_n * 6:
